@@ -893,6 +893,7 @@ func (r *Run) execStream(cc grpc.ClientConnInterface, ctx context.Context, opts 
 }
 
 func (r *Run) runClientOps(who string, st grpc.ClientStream, ops []Op) {
+	stopSend := false
 	for _, op := range ops {
 		switch op.Op {
 		case "send":
@@ -908,6 +909,19 @@ func (r *Run) runClientOps(who string, st grpc.ClientStream, ops []Op) {
 				mutateMsg(msg)
 			}
 			r.rec(Event{Who: who, Op: "send", Msg: snap, Err: err, Pan: pan})
+		case "send-until-eof":
+			// like "send", but the actor stops sending once a send has failed
+			if stopSend {
+				continue
+			}
+			msg, snap := r.sendArg(op.Msg)
+			r.rec(Event{Who: who, Op: "send", Call: true, Msg: snap})
+			var err error
+			pan := guard(func() { err = st.SendMsg(msg) })
+			r.rec(Event{Who: who, Op: "send", Msg: snap, Err: err, Pan: pan})
+			if err != nil || pan != "" {
+				stopSend = true
+			}
 		case "close":
 			r.rec(Event{Who: who, Op: "close", Call: true})
 			var err error
